@@ -29,6 +29,9 @@ KNOWN = os.path.join(VERIF, 'known_findings.txt')
 ALLOW = os.path.join(VERIF, 'trusted_allowlist.txt')
 MINIMUMS = os.path.join(VERIF, 'units', 'minimums.json')
 
+# properties whose witness search is deterministic (no timing, no socket-buffer dependence)
+WITNESS_FALLBACK = ('C01', 'C02', 'C03', 'C04', 'C05', 'C11', 'C12', 'C13', 'C16')
+
 TRUST_PATTERNS = [r'\bassume\s*\(', r'\badmit\s*\(', r'external_body', r'assume_specification',
                   r'external_type_specification', r'external_trait_specification', r'\buninterp\b',
                   r'external_fn_specification', r'verifier::external\b', r'verifier::exec_allows_no_decreases_clause',
@@ -371,6 +374,24 @@ def main():
             out_lines.append('VIOLATION property=%s replay=%s obligation=%s function=%s%s' % (prop, path, v['clause'], v.get('fn'), suffix))
     elif undecided:
         rc = 2
+        # The verifier could not decide because the code left the shape the contracts are written for
+        # (a function or anchor is gone, a construct outside the Verus subset appeared, a new loop has
+        # no invariant).  That is not an alarm.  But the replay search can still settle it in one
+        # direction: a concrete input on which the REAL code breaks the property is a violation
+        # whatever the verifier says.  Only the deterministic searches are used for this.
+        shape = [u for u in undecided if any(k in u for k in ('extraction:', 'tool/compile error', 'round-trip:', 'anchors lost'))]
+        if shape and prop in WITNESS_FALLBACK:
+            wit = witness(prop, 'undecided', tier)
+            if wit and wit.get('status') == 'found':
+                name = '%s-undecided-by-verifier' % prop
+                path = os.path.join(REPLAYS, name + '.json')
+                with open(path, 'w') as f:
+                    json.dump(dict(property=prop, failed_obligation=None, verifier='UNDECIDED: ' + ' | '.join(u[:400] for u in undecided),
+                                   note='no obligation could be checked on this tree; the violation is established by the concrete failing input below, found by the bounded witness search on the real code',
+                                   witness=wit, repo_tree=repo_tree_id(), tier=tier), f, indent=1)
+                out_lines.append('VIOLATION property=%s replay=%s obligation=undecided-by-verifier failing-input-found-by-bounded-search' % (prop, path))
+                real.append(dict(clause='undecided-by-verifier'))
+                rc = 1
 
     for ln in out_lines:
         print(ln)
